@@ -41,6 +41,11 @@ pub enum RawOp {
     /// rename n -> m (refused iff m exists).
     Rename(u8, u8),
     Remove(u8),
+    /// remove_region_if_exists of a name that does not exist: Ok, no effect
+    RemoveMissing,
+    /// set_min_len: false = one byte (never grows the file), true = one byte more than the
+    /// file has (grows it)
+    SetMinLen(bool),
     /// remove while a second handle to the region is alive: must be refused.
     RemoveHeld(u8),
     /// retain exactly the names in the mask.
@@ -70,6 +75,8 @@ impl RawOp {
             RawOp::TruncateWrite(..) => "truncate_write",
             RawOp::Rename(..) => "rename",
             RawOp::Remove(_) => "remove",
+            RawOp::RemoveMissing => "remove_missing",
+            RawOp::SetMinLen(_) => "set_min_len",
             RawOp::RemoveHeld(_) => "remove_held",
             RawOp::Retain(_) => "retain",
             RawOp::RetainHeld(..) => "retain_held",
@@ -428,7 +435,23 @@ impl RawSys {
                 .unwrap()
                 .rename(NAMES[*m as usize])
                 .map_err(e),
-            RawOp::Remove(n) => self.db().remove_region(NAMES[*n as usize]).map_err(e),
+            RawOp::Remove(n) => {
+                // both public entry points, alternating with the region's write generation
+                if self.generation[*n as usize] == 1 {
+                    self.db().remove_region_if_exists(NAMES[*n as usize]).map_err(e)
+                } else {
+                    self.db().remove_region(NAMES[*n as usize]).map_err(e)
+                }
+            }
+            RawOp::RemoveMissing => self.db().remove_region_if_exists("no_such_region").map_err(e),
+            RawOp::SetMinLen(grow) => {
+                let want = if *grow { self.db().file_len() + 1 } else { 1 };
+                let r = self.db().set_min_len(want).map_err(e);
+                if r.is_ok() && self.db().file_len() < want {
+                    return Err("set_min_len returned Ok but the file is shorter than requested".into());
+                }
+                r
+            }
             RawOp::RemoveHeld(n) => {
                 let held = self.region(*n).unwrap();
                 let r = self.db().remove_region(NAMES[*n as usize]).map_err(e);
@@ -586,7 +609,7 @@ impl RawSys {
                     Err("RegionMetadataUnwritten")
                 }
             }
-            RawOp::Flush | RawOp::Compact => Ok(()),
+            RawOp::Flush | RawOp::Compact | RawOp::RemoveMissing | RawOp::SetMinLen(_) => Ok(()),
             RawOp::Reopen => Ok(()),
             RawOp::OpenReader(_) | RawOp::CheckReader | RawOp::DropReader => Ok(()),
         }
@@ -752,6 +775,16 @@ impl Sys for RawSys {
         }
         if cfg.has("flush") {
             v.push(RawOp::Flush);
+        }
+        if cfg.has("refused") && cfg.has("remove") {
+            v.push(RawOp::RemoveMissing);
+        }
+        if cfg.has("set_min_len") {
+            v.push(RawOp::SetMinLen(false));
+            // a held Reader and file growth on the same thread is the documented deadlock
+            if self.reader.is_none() && self.db().file_len() < 8 << 20 {
+                v.push(RawOp::SetMinLen(true));
+            }
         }
         if cfg.has("compact") {
             v.push(RawOp::Compact);
